@@ -537,6 +537,33 @@ def rule_checker_literals(ctx):
         ctx.check(consts <= {"Int64", "Float64"} and consts, rule, "%s:defaults" % mode,
                   "%s mentions numeric type constants %s; the only defaults are Int64 / Float64" % (mode, sorted(consts)), loc,
                   detail={"mode": mode, "defaults": sorted(consts)})
+    # "Int64 / Float64 when NOTHING selects a type": an expected type that is a solved inference variable selects its solution
+    if tc is not None:
+        h = ctx.need_hir(rule, tc)
+        env = A.ArmEnv(); env.strip = True; env.bind_params(h)
+        found = False
+        for m in H.walk(h["body"]):
+            if H.kind(m) != "Match" or m.get("src") or "types_pre" not in A.sexpr(m["scrut"], env):
+                continue
+            for a in m["arms"]:
+                if not A.pat_shape(a["pat"]).startswith("Fill"):
+                    continue
+                # the solution is read (statics.solus) in the arm's guard or in an `if let` of the arm, and that branch analyzes
+                for holder in [a] + [x for x in H.walk(a["body"]) if H.kind(x) == "If"]:
+                    cond = holder.get("guard") if holder is a else holder.get("c")
+                    body = a["body"] if holder is a else holder.get("t")
+                    if cond is None or body is None:
+                        continue
+                    reads_solution = any(H.kind(x) == "Field" and x.get("name") == "solus" for x in H.walk(cond))
+                    analyses = any(H.kind(c) in ("Call", "MethodCall") and re.search(r"Action::<\w+>::ana$|Action::ana$", H.callee(c) or "")
+                                   for c in H.walk(body))
+                    if reads_solution and analyses:
+                        found = True
+        ctx.check(found, rule, "analysis:solved-variable-selects", "the term judgment synthesizes every term whose expected type is an "
+                  "inference variable, even one that already has a solution: a literal then takes its default width and `! pick _ b 255` "
+                  "with `b : UInt8` is rejected (`expected UInt8, found Int64`) although UInt8 is selected and 255 is in range; a solved "
+                  "variable must hand its solution to the analysis mode", ctx.facts.bodies()[tc]["loc"],
+                  detail={"prelude": "Fill arm with a guard on statics.solus analyzes against the solution"})
     # callers of with_type / from_value
     n = 0
     for c in ctx.facts.calls():
